@@ -15,7 +15,7 @@ Model of `src/encode/pattern/parser.rs`, function by function, over `List Char`.
   the recursion consumes at least one character, so `input.length + 1` is always enough
   (`Pattern/ParserLemmas.lean`), and the entry points fix that fuel.
 -/
-namespace Log4rs.Pattern
+namespace Log4rs.Pattern.Parse
 
 open Lean in
 /-- `cs!"abc"` is the explicit character list `['a','b','c']` (tables that proofs compute with
@@ -52,6 +52,11 @@ structure CharClass where
 def asciiAlpha (c : Char) : Bool :=
   ('a'.toNat ≤ c.toNat && c.toNat ≤ 'z'.toNat) || ('A'.toNat ≤ c.toNat && c.toNat ≤ 'Z'.toNat)
 def asciiAlnum (c : Char) : Bool := asciiAlpha c || Str.isAsciiDigit c
+
+/-- the ASCII-only instance (every non-ASCII character counts as neither) -/
+def asciiClass : CharClass where
+  alpha c := decide (c.toNat < 128) && asciiAlpha c
+  alnum c := decide (c.toNat < 128) && asciiAlnum c
 
 /-- result of a parser function: value and remaining input, a Rust `Err(String)` with the
 remaining input, a panic, or fuel exhaustion (never happens with the entry points' fuel) -/
@@ -139,40 +144,50 @@ def closeBrace (piece : Piece) (s : List Char) : PR (Option Piece) :=
 def textPiece (c : Char) (r : List Char) : PR (Option Piece) :=
   .ok (some (.text (c :: r.takeWhile (fun x => !isSpecial x)))) (r.dropWhile (fun x => !isSpecial x))
 
-/-- `Iterator::next` with `argument` and `formatter` inlined; `argsF` is `Parser::args` (the
-recursive call). -/
+/-- `consume(c)` right after a `c`: the doubled form of an escape -/
+def doubled (c : Char) (r : List Char) : Option (List Char) :=
+  match r with
+  | d :: r' => if d = c then some r' else none
+  | [] => none
+
+/-- `Parser::argument` + `Parser::formatter` and the closing brace, on the input after `'{'`;
+`argsF` is `Parser::args` (the recursive call). A failed `args()` makes `argument` return the
+error piece without parsing parameters. -/
+def argumentWith (cc : CharClass) (P : Profile) (argsF : List Char → PR (List (List Piece)))
+    (r : List Char) : PR (Option Piece) :=
+  match argsF (name cc r).2 with
+  | .ok args r2 =>
+    match parameters P r2 with
+    | .ok p r3 => closeBrace (.arg (name cc r).1 args p) r3
+    | .fail e r3 => .fail e r3
+    | .panic w => .panic w
+    | .fuel => .fuel
+  | .fail e r2 => closeBrace (.error e) r2
+  | .panic w => .panic w
+  | .fuel => .fuel
+
+/-- `Iterator::next`; `argsF` is `Parser::args` (the recursive call). -/
 def nextWith (cc : CharClass) (P : Profile) (argsF : List Char → PR (List (List Piece)))
     (s : List Char) : PR (Option Piece) :=
   match s with
   | [] => .ok none []
   | c :: r =>
     if c = '{' then
-      match r with
-      | '{' :: r' => .ok (some (.text ['{'])) r'
-      | _ =>
-        let (nm, r1) := name cc r
-        match argsF r1 with
-        | .ok args r2 =>
-          match parameters P r2 with
-          | .ok p r3 => closeBrace (.arg nm args p) r3
-          | .fail e r3 => .fail e r3
-          | .panic w => .panic w
-          | .fuel => .fuel
-        | .fail e r2 => closeBrace (.error e) r2
-        | .panic w => .panic w
-        | .fuel => .fuel
+      match doubled '{' r with
+      | some r' => .ok (some (.text ['{'])) r'
+      | none => argumentWith cc P argsF r
     else if c = '}' then
-      match r with
-      | '}' :: r' => .ok (some (.text ['}'])) r'
-      | _ => .ok (some (.error eUnmatchedClose)) r
+      match doubled '}' r with
+      | some r' => .ok (some (.text ['}'])) r'
+      | none => .ok (some (.error eUnmatchedClose)) r
     else if c = '(' then
-      match r with
-      | '(' :: r' => .ok (some (.text ['('])) r'
-      | _ => .ok (some (.error eUnexpectedOpenParen)) r
+      match doubled '(' r with
+      | some r' => .ok (some (.text ['('])) r'
+      | none => .ok (some (.error eUnexpectedOpenParen)) r
     else if c = ')' then
-      match r with
-      | ')' :: r' => .ok (some (.text [')'])) r'
-      | _ => .ok (some (.error eUnexpectedCloseParen)) r
+      match doubled ')' r with
+      | some r' => .ok (some (.text [')'])) r'
+      | none => .ok (some (.error eUnexpectedCloseParen)) r
     else if c = '\\' then
       match r with
       | d :: r' => if isSpecial d then .ok (some (.text [d])) r' else .ok (some (.error eUnexpectedBackslash)) r
@@ -233,4 +248,16 @@ def parseLoop (cc : CharClass) (P : Profile) : Nat → List Char → Outcome Uni
 def parse (cc : CharClass) (P : Profile) (s : List Char) : Outcome Unit (List Piece) :=
   parseLoop cc P (s.length + 1) s
 
-end Log4rs.Pattern
+/-- every prefix of every maximal run of ASCII digits has a value below `W` (`cur` is the value of
+the run read so far): the syntactic reading of "all explicit widths fit in `usize`" -/
+def runsFit (W : Nat) : List Char → Nat → Bool
+  | [], _ => true
+  | c :: r, cur =>
+    if Str.isAsciiDigit c then
+      decide (cur * 10 + Str.digitVal c < W) && runsFit W r (cur * 10 + Str.digitVal c)
+    else runsFit W r 0
+
+/-- hypothesis of `C11_parse_no_panic_partial` -/
+def digitRunsFit (P : Profile) (s : List Char) : Bool := runsFit (2 ^ P.wordBits) s 0
+
+end Log4rs.Pattern.Parse
